@@ -24,12 +24,15 @@ def run(chk, replay=None):
                  args=dict(mode="concurrent", threads=8, thread_ops=200000, conc_runs=2)),
         ]
     rtprops.execute(chk, "c10", steps)
-    rtprops.summarize(chk, ("histories_exhaustive", "histories_random", "forged_histories", "concurrent_runs"))
+    rtprops.summarize(chk, ("histories_exhaustive", "histories_random", "forged_histories", "concurrent_runs", "aligned_histories", "parity_cells"))
     chk.coverage["rule"] = ("histories over {from value/Arc/Option<Arc>, clone, take, transpose, into_opaque, into_arc, default, deref, drop} on a pool of <=5 "
                             "handles: every (kind,slot) sequence up to the exhaustive depth after a two-handle prefix, plus seeded random histories; forged handles "
-                            "with counting clone_fn/drop_fn; concurrent clone/deref/drop from several threads (Miri: one schedule seed per process). distinct = distinct random op sequences (digest)")
+                            "with counting clone_fn/drop_fn; the same count/deref/destruction model over payloads aligned to 16/32/64/128/4096 bytes; Send/Sync of CArc<T>/CArcSome<T> against Arc<T> "
+                            "for the four payload classes (always-compiling probe read at run time); concurrent clone/deref/drop from several threads (Miri: one schedule seed per process). distinct = distinct random op sequences (digest)")
     p = chk.parts
     chk.floor("model histories", p.get("native-model", {}).get("histories_random", 0) + p.get("native-model", {}).get("histories_exhaustive", 0), 1000)
+    chk.floor("over-aligned payload histories", p.get("native-model", {}).get("aligned_histories", 0), 500)
+    chk.floor("auto-trait parity cells", p.get("native-model", {}).get("parity_cells", 0), 16)
     chk.floor("forged clone_fn calls observed", p.get("native-model", {}).get("forged_clone_fn_calls", 0), 50)
     chk.floor("miri sequential histories", p.get("miri-sequential", {}).get("histories_random", 0), 20)
     chk.floor("miri concurrent schedules", p.get("miri-threads", {}).get("concurrent_runs", 0), 8)
